@@ -131,6 +131,7 @@ JSON JSON::parse(StringReader& r, bool disable_extensions) {
 
       char exp_specifier = r.eof() ? '\0' : r.get_s8(false);
       if (exp_specifier == 'e' || exp_specifier == 'E') {
+        is_int = false;
         r.get_s8();
         char sign_char = r.get_s8(false);
         bool e_negative = sign_char == '-';
@@ -328,7 +329,7 @@ string JSON::serialize(uint32_t options, size_t indent_level) const {
 
     case 3: { // double
       string ret = string_printf("%g", this->as_float());
-      if (ret.find('.') == string::npos) {
+      if (ret.find_first_of(".e") == string::npos) {
         return ret + ".0";
       }
       return ret;
